@@ -18,8 +18,6 @@ pub fn factorize_verbose(x: &BigInt, verbose: bool) -> (Vec<(BigInt, u64)>, EcmS
         panic!("x <= 0: x = {}", x);
     }
 
-    let b = select_b(x);
-
     let mut stack = vec![(x.clone(), 1)];
     let mut map = HashMap::new();
     let mut count = 0;
@@ -38,6 +36,10 @@ pub fn factorize_verbose(x: &BigInt, verbose: bool) -> (Vec<(BigInt, u64)>, EcmS
                 continue;
             }
         }
+        // The bound (and with it the batch size) follows the number being split, not the original
+        // input: a batch sized for a large x never separates the primes of a small cofactor such
+        // as 15, because the joint gcd of the whole batch is then always the cofactor itself.
+        let b = select_b(&now);
         let (fac, nowcount) = ecm(
             &now,
             ECMConfig {
